@@ -473,33 +473,48 @@ func TestSorterExhaustive(t *testing.T) {
 	if vf.ReplayMode() {
 		t.Skip("failures of the exhaustive tier are recorded in the sorter-model format and replay there")
 	}
-	const cells = 6
 	type iv struct{ a, b int }
-	var ivs []iv
-	for a := 0; a < cells; a++ {
-		for b := a + 1; b <= cells; b++ {
-			ivs = append(ivs, iv{a, b})
-		}
-	}
 	acts := []string{"", "pop", "popall"}
+	si, sk := vf.Shard()
+	idx := 0
+	type config struct {
+		cells, cell int
+		strict      bool
+		kmin, kmax  int
+	}
+	var configs []config
 	K := 3
 	if vf.Thorough() {
 		K = 4
 	}
-	si, sk := vf.Shard()
-	alphabet := len(ivs) * len(acts)
-	idx := 0
 	for _, cell := range []int{1, 43, 128} {
-		sizes := make([]int, cells)
-		for i := range sizes {
-			sizes[i] = cell
-		}
 		for _, strict := range []bool{false, true} {
 			if cell == 1 && !strict {
 				continue // nothing is recyclable: covered by strict
 			}
+			configs = append(configs, config{6, cell, strict, 1, K})
+		}
+	}
+	if !vf.Thorough() {
+		// quick tier: length 4 as well, on a 5-cell lattice (15 intervals) with the threshold-straddling cell size
+		configs = append(configs, config{5, 43, false, 4, 4})
+	}
+	for _, cf := range configs {
+		cells, cell, strict := cf.cells, cf.cell, cf.strict
+		var ivs []iv
+		for a := 0; a < cells; a++ {
+			for b := a + 1; b <= cells; b++ {
+				ivs = append(ivs, iv{a, b})
+			}
+		}
+		alphabet := len(ivs) * len(acts)
+		sizes := make([]int, cells)
+		for i := range sizes {
+			sizes[i] = cell
+		}
+		{
 			p := SoParams{Sizes: sizes, Seed: uint32(cell), Strict: strict}
-			for k := 1; k <= K; k++ {
+			for k := cf.kmin; k <= cf.kmax; k++ {
 				n := 1
 				for i := 0; i < k; i++ {
 					n *= alphabet
@@ -556,7 +571,7 @@ func TestSorterExhaustive(t *testing.T) {
 					}
 					s := &m.stats
 					if (s.overlap || s.dup || s.ooo) && s.popsBetween > 0 {
-						u.NonTrivial(cell, strict, k, code)
+						u.NonTrivial(cells, cell, strict, k, code)
 						if u.WantSample() && code%9973 == 0 {
 							u.Sample(vf.MachineCase[SoParams, SoOp]{Params: p, Ops: ops})
 						}
@@ -571,5 +586,9 @@ func TestSorterExhaustive(t *testing.T) {
 			}
 		}
 	}
-	u.Extra("exhaustive", fmt.Sprintf("all sequences of <=%d pushes over the 21 intervals of a 6-cell lattice x {no read, one Pop, Pop until empty} after each push, cell sizes {1,43,128} x {pooled-only, strict} recycling, Peek of the contiguous run after every step", K))
+	extra := fmt.Sprintf("all sequences of <=%d pushes over the 21 intervals of a 6-cell lattice x {no read, one Pop, Pop until empty} after each push, cell sizes {1,43,128} x {pooled-only, strict} recycling, Peek of the contiguous run after every step", K)
+	if !vf.Thorough() {
+		extra += "; plus all sequences of exactly 4 pushes over the 15 intervals of a 5-cell lattice, cell size 43"
+	}
+	u.Extra("exhaustive", extra)
 }
